@@ -73,6 +73,11 @@ var c16templates = []string{
 	"{{.NoSuchField}}",
 	"{{if}}",
 	strings.Repeat("{{.BaseScore}}|", 50),
+	// templates that define equally named blocks with different bodies, and one that only references the name
+	"{{define \"row\"}}| {{.}} |{{end}}{{define \"footer\"}}-- md{{end}}{{template \"row\" .AVValue}}{{template \"row\" .BaseScore}}{{template \"footer\"}}",
+	"{{define \"row\"}}{{.}},{{end}}{{define \"footer\"}}# csv{{end}}{{template \"row\" .AVValue}}{{template \"row\" .Vector}}{{template \"footer\"}}",
+	"{{template \"row\" .SeverityValue}}",
+	"{{block \"row\" .Vector}}<{{.}}>{{end}} {{.SeverityValue}}",
 }
 
 func buildShared(seed int64) *c16shared {
@@ -115,11 +120,11 @@ func c16genOp(rng *rand.Rand, sh *c16shared) c16op {
 	case x < 62: // query on a shared object
 		return c16op{kind: rng.IntN(kReportNew + 1), obj: rng.IntN(len(sh.objs)), p: rng.IntN(9)}
 	case x < 74:
-		return c16op{kind: kExportShared, obj: rng.IntN(len(sh.reports)), p: rng.IntN(len(sh.tmpls))}
+		return c16op{kind: kExportShared, obj: rng.IntN(len(sh.reports)), p: rng.IntN(3 * len(sh.tmpls))}
 	case x < 86:
 		return c16op{kind: kDecodeOwn, src: randomSource(rng), p: rng.IntN(nQueryOps)}
 	case x < 93:
-		return c16op{kind: kExportOwn, obj: rng.IntN(len(sh.objs)), p: rng.IntN(len(sh.tmpls))}
+		return c16op{kind: kExportOwn, obj: rng.IntN(len(sh.objs)), p: rng.IntN(3 * len(sh.tmpls))}
 	default:
 		return c16op{kind: kNames, p: rng.IntN(1 << 20)}
 	}
@@ -133,13 +138,7 @@ func c16exec(op *c16op, sh *c16shared) string {
 	case kReportNew:
 		return doOp(sh.objs[op.obj], 8, op.p)
 	case kExportShared:
-		rep := sh.reports[op.obj]
-		if op.p%2 == 0 {
-			out, isNil, err, pan := rep.ExportWithString(sh.tmpls[op.p])
-			return fmt.Sprint(out, isNil, lib.ErrClass(err), pan != nil)
-		}
-		out, isNil, err, pan := rep.ExportWith(strings.NewReader(sh.tmpls[op.p]))
-		return fmt.Sprint(out, isNil, lib.ErrClass(err), pan != nil)
+		return c16export(sh.reports[op.obj], sh, op.p)
 	case kDecodeOwn:
 		o := op.src.make()
 		_, err, pan := lib.Decode(op.src.Kind, op.src.Input, op.p%2 == 0)
@@ -153,13 +152,28 @@ func c16exec(op *c16op, sh *c16shared) string {
 		if pan != nil {
 			return "report panicked"
 		}
-		out, isNil, err, pan := rep.ExportWithString(sh.tmpls[op.p])
-		return fmt.Sprint(out, isNil, lib.ErrClass(err), pan != nil)
+		return c16export(rep, sh, op.p)
 	default:
 		i := op.p % len(lib.ValueFns)
 		j := op.p / 64 % len(lib.TitleFns)
 		lang := tagOf(reportLangs[op.p%len(reportLangs)])
 		return lib.ValueFns[i].F(op.p%7, lang) + "|" + lib.TitleFns[j].F(lang)
+	}
+}
+
+// c16export exports template p%len through the string path, a reader, or a reader that fails half-way.
+func c16export(rep lib.Report, sh *c16shared, p int) string {
+	t := sh.tmpls[p%len(sh.tmpls)]
+	switch p / len(sh.tmpls) {
+	case 0:
+		out, isNil, err, pan := rep.ExportWithString(t)
+		return fmt.Sprint(out, isNil, lib.ErrClass(err), pan != nil)
+	case 1:
+		out, isNil, err, pan := rep.ExportWith(&chunkReader{data: []byte(t), rng: rand.New(rand.NewPCG(uint64(p), 7))})
+		return fmt.Sprint(out, isNil, lib.ErrClass(err), pan != nil)
+	default:
+		out, isNil, err, pan := rep.ExportWith(&failAfter{data: []byte(t), n: len(t) / 2})
+		return fmt.Sprint(out, isNil, lib.ErrClass(err), pan != nil)
 	}
 }
 
@@ -529,7 +543,7 @@ func runC16(r *Run) int {
 	r.Extra("child_processes", children)
 	r.Extra("cold_first_use_goroutines", cold)
 	r.Extra("race_detector", map[string]interface{}{"binary_built_with_race": raceBuild, "GORACE": "halt_on_error=0 log_path=out/C16/race-<round>", "reports_counted_from_log_files": true})
-	return r.Finish("race-detector build; per round one child process: first use of the library made concurrently by all goroutines (cold start), then G goroutines (8/32/64; GOMAXPROCS 2/4/16) released from a barrier, without any synchronisation between them afterwards, run seed-determined mixes of: all queries and report construction on SHARED objects of all six types (decoded and invalid), template export on SHARED report objects with shared template strings, decodes of valid/invalid vectors into own objects, export on own reports, names.*; oracles: (1) the Go race detector (any report with a library frame is a violation, de-duplicated by outermost library frame pair), (2) every concurrent result equals the sequential re-execution of the same operation; the recorded history (op, object, call, return from one monotonic clock) yields the overlap matrix; rounds repeat until every operation pair overlapped >= 5 times; distinct non-trivial = distinct operations (kind, object, parameters) executed concurrently",
+	return r.Finish("race-detector build; per round one child process: first use of the library made concurrently by all goroutines (cold start), then G goroutines (8/32/64; GOMAXPROCS 2/4/16) released from a barrier, without any synchronisation between them afterwards, run seed-determined mixes of: all queries and report construction on SHARED objects of all six types (decoded and invalid), template export on SHARED report objects with shared template strings (string path, chunked readers, readers failing half-way; templates that define equally named blocks differently), decodes of valid/invalid vectors into own objects, export on own reports, names.*; oracles: (1) the Go race detector (any report with a library frame is a violation, de-duplicated by outermost library frame pair), (2) every concurrent result equals the sequential re-execution of the same operation; the recorded history (op, object, call, return from one monotonic clock) yields the overlap matrix; rounds repeat until every operation pair overlapped >= 5 times; distinct non-trivial = distinct operations (kind, object, parameters) executed concurrently",
 		false, distinct, 20000, 1000, TrustedBase)
 }
 
